@@ -63,6 +63,12 @@ class NodeParser(PushParser):
             if type(e) is LookupError:
                 raise ParserError(e)
             raise
+        except ValueError as e:
+            # xml.etree: the declared encoding is multi-byte, or its codec
+            # can not decode the document (bare ValueError, UnicodeError)
+            if type(e) is ValueError or isinstance(e, UnicodeError):
+                raise ParserError(e)
+            raise
 
         if result is not None:
             return result
